@@ -30,6 +30,9 @@ def run(ctx):
     feeds = rule_forward(F, R)
     rule_pair(F, R)
     rule_feeds(F, R, "C13")
+    # a directory that matches an exhaustive negation is discarded as a tree (and so not read): the verdict table of `not`
+    from . import c03
+    c03.rule_verdict(F, R)
     R.count("functions_evaluated", 0)
 
 
